@@ -30,6 +30,8 @@ use super::peer_addr_to_ip_version_str;
 use super::request::{parse_request, RequestParseError};
 
 const REQUEST_BUFFER_SIZE: usize = 2048;
+/// Minimum response buffer size. Actual size depends on configuration, see
+/// `response_buffer_size`
 const RESPONSE_BUFFER_SIZE: usize = 4096;
 
 const RESPONSE_HEADER_A: &[u8] = b"HTTP/1.1 200 OK\r\nContent-Length: ";
@@ -38,6 +40,36 @@ const RESPONSE_HEADER_C: &[u8] = b"\r\n\r\n";
 
 static RESPONSE_HEADER: Lazy<Vec<u8>> =
     Lazy::new(|| [RESPONSE_HEADER_A, RESPONSE_HEADER_B, RESPONSE_HEADER_C].concat());
+
+/// Calculate response buffer size needed to fit the largest response that
+/// can be generated with this configuration
+fn response_buffer_size(config: &Config) -> usize {
+    // Bencode dictionary keys, integers of up to 20 digits and length prefixes
+    const ANNOUNCE_RESPONSE_FIXED_LEN: usize = 192;
+    // IPv6 address and port
+    const ANNOUNCE_RESPONSE_PEER_LEN: usize = 18;
+    // Info hash, dictionary keys and two integers of up to 20 digits
+    const SCRAPE_RESPONSE_TORRENT_LEN: usize = 112;
+    // Each info hash in a request takes up at least this many bytes
+    // ("info_hash=" followed by 20 characters and a separator)
+    const MIN_SCRAPE_REQUEST_INFO_HASH_LEN: usize = 31;
+
+    let max_announce_body_len = ANNOUNCE_RESPONSE_FIXED_LEN
+        + config
+            .protocol
+            .max_peers
+            .saturating_mul(ANNOUNCE_RESPONSE_PEER_LEN);
+
+    let max_scrape_torrents = config
+        .protocol
+        .max_scrape_torrents
+        .min(REQUEST_BUFFER_SIZE / MIN_SCRAPE_REQUEST_INFO_HASH_LEN);
+    let max_scrape_body_len = 32 + max_scrape_torrents * SCRAPE_RESPONSE_TORRENT_LEN;
+
+    let max_len = RESPONSE_HEADER.len() + max_announce_body_len.max(max_scrape_body_len) + 2;
+
+    max_len.max(RESPONSE_BUFFER_SIZE)
+}
 
 struct PendingScrapeResponse {
     pending_worker_responses: usize,
@@ -80,7 +112,7 @@ pub(super) async fn run_connection(
     let access_list_cache = create_access_list_cache(&access_list);
     let request_buffer = Box::new([0u8; REQUEST_BUFFER_SIZE]);
 
-    let mut response_buffer = Box::new([0; RESPONSE_BUFFER_SIZE]);
+    let mut response_buffer = vec![0; response_buffer_size(&config)].into_boxed_slice();
 
     response_buffer[..RESPONSE_HEADER.len()].copy_from_slice(&RESPONSE_HEADER);
 
@@ -146,7 +178,7 @@ struct Connection<S> {
     peer_port: u16,
     request_buffer: Box<[u8; REQUEST_BUFFER_SIZE]>,
     request_buffer_position: usize,
-    response_buffer: Box<[u8; RESPONSE_BUFFER_SIZE]>,
+    response_buffer: Box<[u8]>,
     stream: S,
     worker_index_string: String,
 }
